@@ -141,10 +141,16 @@ func FormatNumber(value float64, picture string, format DecimalFormat) (string, 
 	}
 
 	exponent := 0
-	if vars.MinExponentSize != 0 {
+	if vars.MinExponentSize != 0 && value != 0 {
 
 		maxMantissa := math.Pow(10, float64(vars.ScalingFactor))
 		minMantissa := math.Pow(10, float64(vars.ScalingFactor-1))
+
+		// Scale the absolute value. The sign is handled by the
+		// subpicture's prefix. (Scaling a negative number or zero
+		// up to the minimum mantissa would never terminate.)
+		isNegative := value < 0
+		value = math.Abs(value)
 
 		for value < minMantissa {
 			value *= 10
@@ -154,6 +160,10 @@ func FormatNumber(value float64, picture string, format DecimalFormat) (string, 
 		for value > maxMantissa {
 			value /= 10
 			exponent++
+		}
+
+		if isNegative {
+			value = -value
 		}
 	}
 
